@@ -9,6 +9,7 @@ import Driver.C01
 import Driver.C03
 import Driver.C11
 import Driver.C16
+import Driver.C05
 /-! `votca_driver`: reads protocol lines `Cxx <op> <args…>` (implementation outputs included) on stdin,
 runs the executable model definitions (the ones the theorems are about) on the same inputs, prints
 `DISAGREE` / `PROPFAIL` lines for the cases that do not check and a `SUMMARY` at the end. -/
@@ -36,6 +37,7 @@ def dispatch (toks : List String) : Verdict :=
   | "C03" :: r => Driver.C03.handle r
   | "C11" :: r => Driver.C11.handle r
   | "C16" :: r => Driver.C16.handle r
+  | "C05" :: r => Driver.C05.handle r
   | _ => { agree := false, msg := "bad-line unknown property", tag := "bad" }
 
 partial def loop (h : IO.FS.Stream) (maxPrint : Nat) (acc : DAcc) : IO DAcc := do
